@@ -80,6 +80,16 @@ CLAIMS = {
              "end minus the CRC trailer ('not one octet more or fewer'), with bounds, refusals, CRC verification and reported length.",
         note="Trusted: struct/bytearray/slice semantics as modelled; reference layout fd_spec() in spverif/props/c07.py.",
         technique=TECH + "; finite case analysis over configuration flags and widths"),
+    "C12": dict(
+        text="Static analysis: for each of the eight PDU kinds and configuration case PduFactory.from_raw is abstractly interpreted "
+             "with octet 0, octet 3 and the directive-code octet concrete; the result must be an instance of exactly the kind's "
+             "class whose reachable state equals, term for term, what the kind's own decoder produces, with header IDs at the "
+             "reference offsets; the inspectors are checked per bit and for all 16 width pairs; the code->class table against the "
+             "DirectiveType enum (exhaustive); undefined codes are refused; all 64 (held kind, accessor) pairs of the holder are "
+             "decided: identity on the diagonal, TypeError on every path elsewhere. Equality with the packed original is inherited "
+             "from C06/C07, not re-decided.",
+        note="Trusted: reference code table in spverif/pdus.py; decoder semantics as modelled.",
+        technique="ast-based abstract interpretation (gated terms) + table extraction/comparison + finite case analysis over PDU kinds"),
 }
 
 NOT_CLAIMED = {}
